@@ -65,6 +65,9 @@ pub const BOUNDARY: &[(&str, &str)] = &[
     ("continuation", "(call/cc (lambda (k) k))"),
     ("unspecified", "(if #f #f)"),
     ("quote-procedure", "(list 'quote car)"),
+    // code for eval whose quasiquote template ends in a procedure / holds one as an element
+    ("quasiquote-dotted-procedure", "(list 'quasiquote (cons 'a car))"),
+    ("quasiquote-procedure-element", "(list 'quasiquote (list 'a car (vector car)))"),
     ("vector-of-continuation", "(vector (call/cc (lambda (k) k)))"),
     ("quoted-unspecified", "(list 'quote (vector (if #f #f)))"),
     ("nested-60", "(let lp ((i 0) (x '())) (if (< i 60) (lp (+ i 1) (list x)) x))"),
